@@ -58,7 +58,8 @@ def generate(seed, tier):
 
     rng = core.sub_rng(seed, "c17.sched")
     srng = core.sub_rng(seed, "c17.sources")
-    files, libs = c18.corpus()
+    files, libvers = c18.corpus()
+    libs = libvers["0"]
     with_imports = rng.random() < 0.3
     pool = [src for name, src in files if ("import " not in src or (with_imports and "nowhere" not in src))]
     if with_imports:
@@ -94,17 +95,20 @@ def generate(seed, tier):
                     "how": "cli" if rng.random() < 0.8 else "inproc",
                     "hs": rng.randint(0, 2 ** 32 - 1),
                     "io": _io_plan(rng, "write"),
+                    # where the source lives and how the paths are spelled on the command line
+                    "layout": rng.choice(["flat", "flat", "flat", "subdir", "abs", "abs-out"]),
                 }
             )
         for _ in range(rng.randint(1, 2)):
-            rn = rng.sample(written, rng.randint(1, len(written)))
+            how = "child" if rng.random() < 0.65 else "inproc"
+            # an in-process reader (cheap) looks at everything that was written so far
+            rn = list(written) if how == "inproc" else rng.sample(written, rng.randint(1, len(written)))
             loads = []
             for fn in rn:
                 if fn.endswith(".nslir") and rng.random() < 0.5:
                     loads.append(fn[: -len(".nslir")])  # resolves to the bare file if one exists, else to fn
                 else:
                     loads.append(fn)
-            how = "child" if rng.random() < 0.8 else "inproc"
             cwd = "store" if (with_imports or rng.random() < 0.6) else "other"
             steps.append(
                 {
@@ -114,6 +118,9 @@ def generate(seed, tier):
                     "cwd": cwd,
                     "hs": rng.randint(0, 2 ** 32 - 1),
                     "io": _io_plan(rng, "read"),
+                    # in-process readers: one loader object kept by the host for the whole
+                    # history, or a new one per load
+                    "loader": rng.choice(["host", "host", "fresh"]),
                 }
             )
     if rng.random() < 0.08:
@@ -261,6 +268,7 @@ def _execute(sc, root, want_texts):
         r.update(kw)
         return r
 
+    host_loader = LinearIR.FilesystemModuleLoader()  # the host keeps one loader for the whole history
     model = {}  # name -> {"src": i, "opt": o, "writes": n} | {"unknown": True}
     history = {}  # name -> list of earlier (src, opt)
     accepted = {}
@@ -285,8 +293,15 @@ def _execute(sc, root, want_texts):
                 needed = [l.split('"')[1] for l in src.splitlines() if l.strip().startswith("import ")]
                 if any(not os.path.exists(os.path.join(store, n + ".nslir")) for n in needed):
                     continue  # (shrunk) the libraries were never written
-            with open(os.path.join(store, base + ".nsl"), "w") as f:
+            layout = st.get("layout", "flat") if st["how"] == "cli" else "flat"
+            srcdir = os.path.join(store, "src") if layout == "subdir" else store
+            os.makedirs(srcdir, exist_ok=True)
+            with open(os.path.join(srcdir, base + ".nsl"), "w") as f:
                 f.write(src)
+            src_arg = {"flat": base + ".nsl", "subdir": os.path.join("src", base + ".nsl"),
+                       "abs": os.path.join(store, base + ".nsl"), "abs-out": base + ".nsl"}[layout]
+            out_arg = os.path.join(store, name) if layout in ("abs", "abs-out") else name
+            bump("writer_layout_" + layout)
             ok_ref, why = is_accepted(i, opt)
             sd = hashlib.sha256(src.encode()).hexdigest()[:10]
             if st["how"] == "cli":
@@ -295,7 +310,7 @@ def _execute(sc, root, want_texts):
                 with open(iop, "w") as f:
                     json.dump(ioplan, f)
                 argv = [BOOT, iop, os.path.join(tree, "nslc.py")] + (["-O", "1"] if opt else []) + [
-                    "-o", name, base + ".nsl"]
+                    "-o", out_arg, src_arg]
                 code, out, err = _run_child(argv, store, st["hs"], tree)
                 bump("writer_processes")
                 s = _stats_of(err)
@@ -402,7 +417,8 @@ def _execute(sc, root, want_texts):
                 try:
                     with core.Quiet():
                         if t["op"] == "load":
-                            m = LinearIR.FilesystemModuleLoader().Load(t["name"])
+                            ld = host_loader if st.get("loader", "host") == "host" else LinearIR.FilesystemModuleLoader()
+                            m = ld.Load(t["name"])
                         else:
                             m, status = _compile_inproc(t["src"], t["opt"])
                             if m is None:
